@@ -394,6 +394,38 @@ func (p *Proxy) handleConnectRequest(ctx *Context, req *http.Request, session *S
 		return p.handle(ctx, conn, brw)
 	}
 
+	if ctx.SkippingRoundTrip() {
+		// A modifier asked to skip the round trip: no tunnel is established, the
+		// request is answered by the proxy like any other whose round trip is
+		// skipped.
+		log.Debugf("martian: skipping CONNECT tunnel: %s", req.URL.Host)
+		res := proxyutil.NewResponse(200, nil, req)
+
+		if err := p.resmod.ModifyResponse(res); err != nil {
+			log.Errorf("martian: error modifying CONNECT response: %v", err)
+			proxyutil.Warning(res.Header, err)
+		}
+		if session.Hijacked() {
+			log.Infof("martian: connection hijacked by response modifier")
+			return nil
+		}
+
+		var closing error
+		if req.Close || res.Close || p.Closing() {
+			res.Close = true
+			closing = errClose
+		}
+		if err := res.Write(brw); err != nil {
+			log.Errorf("martian: got error while writing response back to client: %v", err)
+			closing = errClose
+		}
+		if err := brw.Flush(); err != nil {
+			log.Errorf("martian: got error while flushing response back to client: %v", err)
+			closing = errClose
+		}
+		return closing
+	}
+
 	log.Debugf("martian: attempting to establish CONNECT tunnel: %s", req.URL.Host)
 	res, cconn, cerr := p.connect(req)
 	if cerr != nil {
